@@ -175,6 +175,18 @@ def families(ctx: Ctx) -> List[Family]:
                         entries[kp] = c.methods[v.id]
                 if entries and isinstance(tgt, ast.Name):
                     tables[tgt.id] = entries
+        # ... or at module level, with functions of the module as handlers
+        for n in h.module.tree.body:
+            if isinstance(n, (ast.Assign, ast.AnnAssign)) and isinstance(n.value, ast.Dict):
+                tgt = n.targets[0] if isinstance(n, ast.Assign) else n.target
+                entries = {}
+                for k, v in zip(n.value.keys, n.value.values):
+                    kp = _const_path(k) if k is not None else None
+                    g_ = prog.func(f"{h.module.name}.{v.id}") if isinstance(v, ast.Name) else None
+                    if kp is not None and g_ is not None:
+                        entries[kp] = g_
+                if entries and isinstance(tgt, ast.Name) and len(entries) == len(n.value.keys) and tgt.id not in tables:
+                    tables[tgt.id] = entries
         for n in h.own_nodes():
             if isinstance(n, ast.Assign) and isinstance(n.value, ast.Call) and isinstance(n.value.func, ast.Attribute) and n.value.func.attr == "get" \
                     and ((isinstance(n.value.func.value, ast.Name) and n.value.func.value.id in tables) or (
@@ -565,6 +577,7 @@ def run(ctx: Ctx) -> None:
             else:
                 exprs.append(a)
             pushed: List[ast.Name] = []
+            undecided = False
             ok_shape = bool(exprs)
             wit: List[str] = []
             self_guarded: Set[str] = set()
@@ -577,9 +590,15 @@ def run(ctx: Ctx) -> None:
                         self_guarded.add(gp.id)  # the helper holds the membership rejection itself
                 if p is None:
                     ok_shape = False
+                    if _record_push(f, e, call):
+                        undecided = True
                     wit.append(f"{where}: stack argument `{unparse(e, 60)}` is not `call_stack + [callee path]`: a cycle through this call is never seen")
                 else:
                     pushed.append(p)
+            if not ok_shape and undecided:
+                rep.unknown("C11.R2", f.qname, f"the stack is extended with a field of a local record (`{unparse(exprs[0], 50)}`), as the descended object is: this analysis does not relate "
+                            "the two fields of a record", where)
+                continue
             if not ok_shape:
                 rep.bad("C11.R2", f.qname, desc, where, wit, stmt_key(call), what="descent does not extend the call stack with the callee")
                 continue
@@ -805,6 +824,19 @@ def guarded_push(ctx: Ctx, f: Func, e: ast.AST) -> Optional[ast.AST]:
         return None
     args = bind_arg(g, e, pushed_param)  # type: ignore
     return args[0] if len(args) == 1 else None
+
+
+def _record_push(f: Func, e: ast.AST, call: ast.Call) -> bool:
+    """`call_stack + [R.path_field]` where the descent is into `R.other_field` of the same local record R"""
+    if not (isinstance(e, ast.BinOp) and isinstance(e.op, ast.Add)):
+        return False
+    for lst in (e.left, e.right):
+        if isinstance(lst, ast.List) and len(lst.elts) == 1 and isinstance(lst.elts[0], ast.Attribute) and isinstance(lst.elts[0].value, ast.Name):
+            rec = lst.elts[0].value.id
+            obj = call.args[0] if call.args else None
+            if rec not in f.params and isinstance(obj, ast.Attribute) and isinstance(obj.value, ast.Name) and obj.value.id == rec and obj.attr != lst.elts[0].attr:
+                return True
+    return False
 
 
 def _stack_push(e: ast.AST) -> Optional[ast.Name]:
